@@ -145,6 +145,10 @@ __CPROVER_assigns(g_forked, __CPROVER_object_upto(self->m_states, sizeof(self->m
 __CPROVER_ensures(g_forked == 1)
 __CPROVER_ensures(self->m_states[g_k] == (g_k_is_fork_target ? g_k_fork_id : __CPROVER_old(self->m_states[g_k])))
 ;
+void enqueue_event_instead(fsm_t* self, event_t evt)     /* the continuation of an entry-point entry merely queued behind whatever the entry behaviours submitted */
+__CPROVER_requires(0)                                                            /*@ob C09,C04.entry-point-continues-immediately-with-the-same-event-not-through-the-queue */
+__CPROVER_assigns()
+;
 HandledEnum process_event(fsm_t* self, event_t evt)
 __CPROVER_requires(g_seq == 3 && g_pe_calls == 0 && !g_exc)                   /*@ob C09.entry-point-event-processed-once-after-the-entry */
 __CPROVER_requires(!evt.wrapped && EV_EQ_U(evt, g_evt))                          /*@ob C09,C18.entry-point-continues-with-the-original-event */
